@@ -25,8 +25,8 @@ PROPS = {
     },
 
     'C02': {
-        'lean_modules': ['C02', 'ArithTieCuckoo', 'C02Concrete'],
-        'required_theorems': ['C02_no_false_negative_concrete', 'C02_inserted_element_found', 'C02_positions_valid', 'C02_positions_valid_any_n', 'C02_fpl_valid_iff', 'C02_concrete_npow2_loses_element', 'tie_cuckooFirstIndex', 'tie_cuckooSecondIndex', 'tie_cuckooKickIndexMem', 'tie_cuckooKickIndexRedis', 'C02_no_false_negative', 'C02_insert_ok_stored', 'C02_insert_preserves_lookup', 'C02_alt_involutive_pow2',
+        'lean_modules': ['C02', 'ArithTieCuckoo', 'C02Concrete', 'MurmurTie'],
+        'required_theorems': ['tie_murmur_sum128', 'tie_murmur_getHash', 'tie_bmixBlock', 'tie_fmix64', 'tie_tailMix', 'C02_no_false_negative_concrete', 'C02_inserted_element_found', 'C02_positions_valid', 'C02_positions_valid_any_n', 'C02_fpl_valid_iff', 'C02_concrete_npow2_loses_element', 'tie_cuckooFirstIndex', 'tie_cuckooSecondIndex', 'tie_cuckooKickIndexMem', 'tie_cuckooKickIndexRedis', 'C02_no_false_negative', 'C02_insert_ok_stored', 'C02_insert_preserves_lookup', 'C02_alt_involutive_pow2',
                               'C02_alt_not_involutive_npow2', 'C02_no_kick_any_n_partial', 'C02_npow2_kick_loses_element'],
         'suites': ['cuckoo', 'conc'],
         'race_suites': ['conc'],
@@ -85,8 +85,8 @@ PROPS = {
         'assumptions': ['elements whose rank is < m (for m <= 64 other elements make Update fail: finding D4, reported under C05)'],
     },
     'C11': {
-        'lean_modules': ['C11'],
-        'required_theorems': ['C11_roundtrip_bloom', 'C11_roundtrip_cms', 'C11_roundtrip_hll', 'C11_roundtrip_cuckoo', 'C11_roundtrip_topk',
+        'lean_modules': ['C11', 'C11Reach', 'C11Table'],
+        'required_theorems': ['C11_layout_understood', 'C11_one_byte_order', 'C11_write_read_agree', 'C11_layout_bloom', 'C11_layout_bitset', 'C11_layout_cms', 'C11_layout_hll', 'C11_layout_bucket', 'C11_layout_cuckoo', 'C11_layout_topk', 'C11_reachable_wf_bloom', 'C11_reachable_wf_cms', 'C11_reachable_wf_hll', 'C11_reachable_wf_cuckoo_bytes', 'C11_reachable_wf_topk', 'C11_roundtrip_reachable_bloom', 'C11_roundtrip_reachable_cms', 'C11_roundtrip_reachable_hll', 'C11_roundtrip_reachable_cuckoo_bytes', 'C11_roundtrip_reachable_topk', 'C11_count_reachable_topk', 'C11_roundtrip_bloom', 'C11_roundtrip_cms', 'C11_roundtrip_hll', 'C11_roundtrip_cuckoo', 'C11_roundtrip_topk',
                               'C11_count_bloom', 'C11_count_cms', 'C11_count_hll', 'C11_count_cuckoo', 'C11_count_topk', 'C11_concat'],
         'suites': ['persist'],
         'level': 'proof',
@@ -115,8 +115,8 @@ PROPS = {
         'assumptions': ['valid fingerprints (finding D3 otherwise)', 'for non-power-of-two bucket counts a live element can become unfindable (finding D2), so "remove of a live element returns true" is only guaranteed with an involutive alternate bucket'],
     },
     'C14': {
-        'lean_modules': ['C14'],
-        'required_theorems': ['C14_rollback_exact', 'C14_failure_signalled', 'C14_success_means_stored', 'C14_destructive_bound'],
+        'lean_modules': ['C14', 'C14Strict'],
+        'required_theorems': ['C14_walk_in_range', 'C14_strict_agrees', 'C14_rollback_exact_strict', 'C14_failure_signalled_strict', 'C14_rollback_exact_in_range', 'C14_strict_needs_slot_range', 'C14_strict_needs_wf', 'C14_rollback_exact', 'C14_failure_signalled', 'C14_success_means_stored', 'C14_destructive_bound'],
         'suites': ['cuckoo'],
         'level': 'proof',
         'explanation': 'Lean: a failed non-destructive insert returns EXACTLY the initial state (no hypotheses); success only by storing into a bucket with room; a failed destructive insert keeps Length and the number of stored entries and changes the stored multiset by +new -one. '
@@ -124,8 +124,8 @@ PROPS = {
         'assumptions': ['the panic value "cannot insert element, cuckoofilter is full" is the failure signal'],
     },
     'C18': {
-        'lean_modules': ['C18', 'C11', 'C18Table'],
-        'required_theorems': ['C18_truncated_bloom', 'C18_truncated_cms', 'C18_truncated_hll', 'C18_truncated_cuckoo', 'C18_truncated_topk', 'C18_errors_propagated', 'C18_decoder_table_covers'],
+        'lean_modules': ['C18', 'C11', 'C18Table', 'C11Reach', 'C11Table'],
+        'required_theorems': ['C11_write_read_agree', 'C18_truncated_reachable_bloom', 'C18_truncated_reachable_cms', 'C18_truncated_reachable_hll', 'C18_truncated_reachable_cuckoo_bytes', 'C18_truncated_reachable_topk', 'C18_truncated_bloom', 'C18_truncated_cms', 'C18_truncated_hll', 'C18_truncated_cuckoo', 'C18_truncated_topk', 'C18_errors_propagated', 'C18_decoder_table_covers'],
         'suites': ['persist', 'jsonprefix'],
         'level': 'proof',
         'explanation': 'Lean: a decoder written in the read-n-bytes monad that consumes a whole image rejects every strict prefix (generic theorem), instantiated for the five formats via the C11 round trip. '
@@ -152,15 +152,15 @@ PROPS = {
         'lean_modules': ['C09', 'C09Stable'],
         'required_theorems': ['C09_attach_any_time_cms', 'C09_attach_any_time_hll', 'C09_attach_any_time_bloom', 'C09_attach_any_time_cuckoo', 'C09_attach_any_time_topk', 'C09_attach_stable', 'C09_attach_stable_cuckoo_length', 'C09_attach_roundtrip_bloom', 'C09_attach_roundtrip_bloom_params', 'C09_attach_roundtrip_cuckoo', 'C09_attach_roundtrip_cms',
                               'C09_attach_roundtrip_hll', 'C09_attach_roundtrip_topk', 'C09_other_keys_irrelevant'],
-        'suites': ['reattach', 'redistie', 'cuckoo', 'blind', 'redisconc'],
+        'suites': ['reattach', 'redistie', 'cuckoo', 'blind', 'redisconc', 'bloom'],
         'level': 'proof',
         'explanation': 'Lean: for every Redis constructor the metadata hash it writes (field names and decimal formatting transcribed) is parsed back by the matching FromKey into the same handle (parameters and keys), and attach depends on nothing but that hash; '
                        'all behaviour of a handle is a function of (parameters, keys, store). Suite `reattach` splits histories between the creating handle and handles re-attached at random points, one in a separate OS process, and compares parameters and every answer after every step.',
         'assumptions': ['numbers < 2^63 (strconv.Atoi); Top-K k < 2^32 (ParseUint 32)', 'Import followed by re-attachment is outside the checked histories (Import does not rewrite the metadata hash: reported in DESIGN.md as D25)'],
     },
     'C10': {
-        'lean_modules': ['C10'],
-        'required_theorems': ['C10_roundtrip_bloomMem', 'C10_roundtrip_bloomRedis', 'C10_roundtrip_cuckooMem_partial', 'C10_roundtrip_cuckooRedis_partial',
+        'lean_modules': ['C10', 'C11Reach', 'C10Table'],
+        'required_theorems': ['C10_table_understood', 'C10_table_covers', 'C10_tags_plain', 'C10_keys_distinct', 'C10_fields_bloom', 'C10_fields_cuckooMem', 'C10_fields_cuckooRedis', 'C10_fields_cmsMem', 'C10_fields_cmsRedis', 'C10_fields_hllMem', 'C10_fields_hllRedis', 'C10_fields_topkMem', 'C10_fields_topkRedis', 'C10_wiring_consistent', 'C10_keys_match', 'C10_roundtrip_reachable_bloom', 'C10_roundtrip_reachable_cms', 'C10_roundtrip_reachable_hll', 'C10_roundtrip_reachable_cuckoo', 'C10_roundtrip_reachable_topk', 'C10_roundtrip_bloomMem', 'C10_roundtrip_bloomRedis', 'C10_roundtrip_cuckooMem_partial', 'C10_roundtrip_cuckooRedis_partial',
                               'C10_roundtrip_cmsMem', 'C10_roundtrip_cmsRedis', 'C10_roundtrip_hllMem', 'C10_roundtrip_hllRedis_partial',
                               'C10_topk_utf8_partial', 'C10_roundtrip_topkRedis_partial', 'C10_redis_original_untouched', 'C10_bloom_redis_codec'],
         'suites': ['json', 'jsontie'],
@@ -209,20 +209,21 @@ PROPS = {
     },
 
     'C15': {
-        'lean_modules': ['C15', 'C15Prob', 'ArithTieCMS', 'ArithTieBloom'],
-        'required_theorems': ['tie_cmsPositionsOf', 'tie_bloomIndexInt', 'C15_bloom_size', 'C15_cms_cols', 'C15_cms_rows', 'C15_cubic_term_exact', 'C15_probes_scheme', 'C15_cuckoo_fpl_counterexample',
+        'lean_modules': ['C15', 'C15Prob', 'C15Bloom', 'ArithTieCMS', 'ArithTieBloom', 'MurmurTie'],
+        'required_theorems': ['tie_murmur_sum128', 'tie_murmur_getHash', 'C15_bloom_fp_union_bound', 'C15_bloom_fp_fraction_le', 'C15_bloom_fp_sized_p', 'C15_bloom_fp_exact_sum', 'C15_bloom_member_always_present', 'tie_cmsPositionsOf', 'tie_bloomIndexInt', 'C15_bloom_size', 'C15_cms_cols', 'C15_cms_rows', 'C15_cubic_term_exact', 'C15_probes_scheme', 'C15_cuckoo_fpl_counterexample',
                               'C15_cms_eps_delta_ideal', 'C15_cms_eps_delta_ideal_count'],
         'suites': ['sizing', 'redisconc'],
         'level': 'other',
         'explanation': 'PARTIAL by nature: the claim is statistical and about concrete hash functions. Proved in Lean (Mathlib reals): the sizing formulas give m >= n ln(1/p)/ln^2 2, e/cols <= eps, e^-rows <= delta; the probe sequences are (enhanced) double hashing with an exact cubic term; the cuckoo sizing is refuted (fingerprint length in bytes used as decimal digits, finding D22). '
                        'Props/C15Prob: the Count-Min (eps, delta) clause is PROVED for ideal hashing - for the sketch the constructor builds (rows = ceil(ln 1/delta), cols = ceil(e/eps)), any history and any element, the fraction of the hash family (every row drawn uniformly and independently from all functions E -> Fin cols) for which Count exceeds the true count by more than eps*N is at most delta (C15_cms_eps_delta_ideal, by counting: cell invariant of C03, Markov by double counting, product set, (1/e)^rows <= delta). The concrete double-hashing scheme of the code is not covered by it. '
+                       'Props/C15Bloom: the Bloom clause for ideal hashing, by counting - for m bits, k probes, any inserted list S and y not in S, the number of hash-family members (all functions E -> Fin k -> Fin m) reporting y present times m^k is at most (k|S|)^k times the family size (C15_bloom_fp_union_bound; exact identity C15_bloom_fp_exact_sum in terms of the occupancy); with the constructor sizing this is (ln 2 + n/m)^k, about p^0.53: a real but LOOSE guarantee, the advertised p itself is not proved. '
                        'Suite `sizing`: every from-error-budget constructor\'s dimensions against the transcribed formulas (exact mode, IEEE double), and a statistical test of observed false-positive / over-estimate frequencies at design load against the budget (slack factor 1.5 + 6 sigma, so an unchanged tree does not alarm) - that part is testing, not proof.',
-        'assumptions': ['uniform-hashing analysis of Bloom filters (cited, not proved); the Count-Min analysis is proved for ideal hashing only, metro hash + double hashing is measured', 'float rounding of the sizing formulas (checked on a grid with a 1e-12 relative tolerance for libm differences)'],
+        'assumptions': ['Bloom: only the union bound (k n / m)^k is proved for ideal hashing, the classical (1 - e^(-kn/m))^k estimate is cited, not proved; the Count-Min analysis is proved for ideal hashing only; metro hash + double hashing is measured', 'float rounding of the sizing formulas (checked on a grid with a 1e-12 relative tolerance for libm differences)'],
         'technique': 'Lean 4 theorems about the sizing arithmetic + exact-mode correspondence of constructor dimensions + statistical test (one-sided bound) of the observed error frequencies',
     },
     'C16': {
-        'lean_modules': ['C16', 'C16Merge'],
-        'required_theorems': ['C16_bloom', 'C16_cms', 'C16_hll', 'C16_bloom_not_lost', 'C16_cuckoo_counterexample', 'C16_topk_counterexample',
+        'lean_modules': ['C16', 'C16Merge', 'C16Cond'],
+        'required_theorems': ['C16_cuckoo_disjoint_buckets', 'C16_cuckoo_room_for_all', 'C16_cuckoo_room_needed', 'C16_cuckoo_shared_bucket_order', 'C16_topk_single_writer', 'C16_topk_two_refreshers', 'C16_topk_reader_sees_k_plus_one', 'C16_topk_refresh_same_member', 'C16_bloom', 'C16_cms', 'C16_hll', 'C16_bloom_not_lost', 'C16_cuckoo_counterexample', 'C16_topk_counterexample',
                               'C16_cms_with_merge', 'C16_hll_with_merge', 'C16_cms_merge_not_lost', 'C16_cms_nonatomic_merge_loses_update'],
         'suites': ['redisconc'],
         'level': 'proof',
